@@ -1137,10 +1137,48 @@ class Walker:
                 self.emit_driver(domain, tgt, val, getattr(it, "lineno", st.lineno))
             else:
                 e = self.ex(it)
+                if isinstance(it, ast.Name) and self.emit_ir(domain, e, st, dry=True):
+                    # a local list of statements built up beforehand (stmts = []; if c: stmts += [...]): its value says which
+                    # statements it holds under which generation-time conditions
+                    self.emit_ir(domain, e, st)
+                    continue
                 if e[0] in ('list', 'tuple') or e[0] == 'gen':
                     self.unsupported(st, "computed statement list in m.d.<domain> +=")
                 else:
                     self.unsupported(st, f"DSL statement is not an .eq(): {ir.show(e)[:60]}")
+
+    def emit_ir(self, domain, e, st, dry=False):
+        """Emit the statements held by the value e of a statement list: displays, concatenations, generation-time choices and
+        `.eq()` calls.  With dry=True nothing is emitted; the result says whether e is understood completely."""
+        try:
+            e = ir.norm(e)
+        except Exception:
+            return False
+        k = e[0]
+        if k == 'listacc':
+            la = self.t.lists.get(e[1])
+            return la is not None and not la.items      # created empty and never appended to: holds nothing
+        if k in ('list', 'tuple'):
+            if any(x[0] == 'star' for x in e[1]):
+                return False
+            return all([self.emit_ir(domain, x, st, dry) for x in e[1]])
+        if k == 'bin' and e[1] == '+':
+            return all([self.emit_ir(domain, e[2], st, dry), self.emit_ir(domain, e[3], st, dry)])
+        if k == 'phi':
+            if dry:
+                return self.emit_ir(domain, e[2], st, True) and self.emit_ir(domain, e[3], st, True)
+            saved = self.gen
+            self.gen = saved + (('pyif', e[1], True),)
+            self.emit_ir(domain, e[2], st)
+            self.gen = saved + (('pyif', e[1], False),)
+            self.emit_ir(domain, e[3], st)
+            self.gen = saved
+            return True
+        if k == 'call' and e[1][0] == 'attr' and e[1][2] == 'eq' and len(e[2]) == 1 and not e[3]:
+            if not dry:
+                self.emit_driver(domain, e[1][1], e[2][0], st.lineno)
+            return True
+        return False
 
     def emit_driver(self, domain, tgt, val, lineno):
         # a target chosen by name at generation time (getattr(bus, <variable>)) could be any member of that object: nothing can
